@@ -80,6 +80,36 @@ def _call(fn, *a):
         return None, e
 
 
+class AllocFault:
+    """Fault kind `alloc`: the k-th construction of a Message during ONE operation fails with MemoryError - the one place where
+    an otherwise total operation can realistically die half-way (a synchronous failure point of the library's own code, not
+    an interrupt at an arbitrary instruction). Installed only around the subject's call."""
+
+    def __init__(self, k):
+        self.k = k
+        self.n = 0
+        self.fired = False
+
+    def __enter__(self):
+        from scoda.elements.message import Message
+        self._cls = Message
+        self._real = Message.__init__
+        me = self
+
+        def init(obj, *a, **kw):
+            me.n += 1
+            if me.n == me.k and not me.fired:
+                me.fired = True
+                raise MemoryError("simulated allocation failure")
+            return me._real(obj, *a, **kw)
+        Message.__init__ = init
+        return self
+
+    def __exit__(self, *exc):
+        self._cls.__init__ = self._real
+        return False
+
+
 def _msg_fields(m):
     return (m.message_type.value, m.channel, m.time, m.note, m.velocity, m.numerator, m.denominator,
             m.key.value if m.key is not None else None, m.program, m.control)
@@ -265,9 +295,29 @@ class C04World:
             return "skip:precondition"
         T = clone_seq(S)  # clean twin: only the fresh views, deep-copied, no stale leftovers
         P = clone_seq(S)  # pre-state, for the cross-freshness-state variants (oracle D2)
-        rs, es = _call(applier, S, args)
-        rt, et = _call(applier, T, _clean_args(args))
         key = {"op": op, "pre": pre}
+        inject = ev.get("inject")
+        if inject and kind in (MUT, DIRECT):
+            with AllocFault(inject) as af:
+                rs, es = _call(applier, S, args)
+            if af.fired:
+                # the operation died (or swallowed the failure) somewhere in the middle: nothing is promised about WHICH of
+                # its effects took place, but the history goes on - the sequence must stay readable and its two views must
+                # still describe the same music
+                self.stats["fault/alloc_failure_inside_operation"] += 1
+                self.stats[f"reach_alloc/{op}|{'raised' if es is not None else 'swallowed'}"] += 1
+                self.perturbations += 1
+                try:
+                    self.check_state(S, op, pre, f" (after {op} met a failing allocation: {type(es).__name__ if es else 'returned'})")
+                except _V as v:
+                    v.v.cls = "EXC-" + v.v.cls
+                    v.v.key = dict(v.v.key, exc="MemoryError")
+                    raise
+                return "ok:alloc-fault"
+            self.stats["fault_not_fired/alloc"] += 1
+        else:
+            rs, es = _call(applier, S, args)
+        rt, et = _call(applier, T, _clean_args(args))
         if es is not None or et is not None:
             if es is not None and et is not None and type(es) is type(et):
                 if op == "copy":
@@ -779,6 +829,8 @@ def _draw_knobs(rng, tier):
         # dense content (many notes in a short span, on several pitches) makes numeric coincidences between notes common
         "horizon": rng.choice([24, 48, 96, 200, 400, 900]),
         "pitches": None,
+        # fault kind `alloc` (swarm style: off in most runs)
+        "p_alloc": 0.0 if lane == "baseline" else rng.choice([0.0, 0.0, 0.0, 0.1, 0.3]),
     }
     if rng.random() < 0.4:
         base = rng.randrange(30, 90)
@@ -862,7 +914,10 @@ def _gen_event(rng, world, knobs):
             ev["adopt"] = rng.randrange(0, 8)
         return ev
     op = seqops.weighted_choice(rng, seqops.MUTATORS, knobs["muts"])
-    return {"op": op, "slot": si, "args": OPS[op][1](rng, S)}
+    ev = {"op": op, "slot": si, "args": OPS[op][1](rng, S)}
+    if knobs.get("p_alloc") and rng.random() < knobs["p_alloc"]:
+        ev["inject"] = rng.choice([1, 1, 2, 3, 5, 8, rng.randrange(1, 40)])
+    return ev
 
 
 # directed sweep: one op from each freshness state (coverage aid, DESIGN §5 C04 reach probes)
@@ -1052,8 +1107,10 @@ class C04Engine:
     RULE = ("one run = one seeded history: 1-2 initial Sequences (freshness state drawn from abs-only / rel-only / both / "
             "Sequence(); content from sparse to dense, incl. 'strummed chord' and almost-quantised shapes), then up to 16 (quick) / 40 "
             "(thorough) events over the full public alphabet (arguments incl. helper-built grids, negative indices, the receiver as its "
-            "own meta sequence, Bar() construction, tokenise), stepped view-iterators and maskable perturbations; the first 246 run "
-            "indices are a directed sweep 'every op from every freshness state'; 6 % of the runs are a scripted ping-pong lane that "
+            "own meta sequence, Bar() construction, tokenise, operations of the view objects followed by the documented invalidation), "
+            "stepped view-iterators, maskable perturbations and - in 40 % of the fault-lane runs - the fault kind `alloc` (the k-th "
+            "construction of a Message inside one mutating call fails with MemoryError); the first run "
+            "indices (2 per operation and freshness state) are a directed sweep 'every op from every freshness state'; 6 % of the runs are a scripted ping-pong lane that "
             "alternates the two iterators on the same messages with values from tiny pools. distinct_nontrivial counts distinct abstract "
             "schedules (crc of the sequence of (op, freshness-before, iterator phase), content abstracted away) among runs that executed "
             ">=1 mutating step AND >=1 fired perturbation (read / refresh / cache drop / copy-swap).")
